@@ -133,6 +133,34 @@ class World:
                 m.age += delta
         self.trace.append("clock += %d" % delta)
 
+    def op_head(self) -> bool:
+        """HTTP HEAD of a directory: prepares the listing but renders nothing, so it neither uses up
+        nor rewrites nor refreshes the cache entry -- a pure observation for the model."""
+        chk = self.chk
+        d = self.rng.choice(self.dirs)
+        sel = b"/" + d if d else b"/"
+        cp = self.cachepath(d)
+        before = os.stat(cp) if os.path.exists(cp) else None
+        req, tls = reqs.render("httphead", sel)
+        r = self.site.request(req, tls=tls)
+        self.trace.append("HEAD /%s" % d.decode())
+        after = os.stat(cp) if os.path.exists(cp) else None
+        m = self.model[d]
+        sample = {"dir": sel, "history": self.trace[-12:], "reply": r.data[:200], "age": m.age}
+        v = validate.validate(r, req, head=True)
+        if r.escaped or not v.ok or v.klass != "headonly":
+            chk.witness("C10/head-request-failed", sample)
+            return False
+        if before is not None and after is not None and m.snapshot is not None and m.age >= self.lifetime > 0 \
+                and after.st_mtime_ns != before.st_mtime_ns and after.st_size == before.st_size:
+            chk.witness("C10/expired-entry-refreshed-without-rewrite", dict(sample, before=before.st_mtime, after=after.st_mtime))
+            return False
+        if after is not None and (before is None or after.st_mtime_ns != before.st_mtime_ns) and self.lifetime > 0:
+            # the implementation chose to (re)write the cache on a HEAD: follow it in the model
+            m.snapshot, m.age, m.written_by = self.render_current(d), 0, "httphead"
+        chk.count("head_requests")
+        return True
+
     def op_request(self) -> bool:
         chk = self.chk
         d = self.rng.choice(self.dirs)
@@ -193,7 +221,10 @@ def run_history(chk: Check, sc: Scratch, idx: int) -> None:
         n = w.rng.randrange(12, 41)
         for _ in range(n):
             r = w.rng.random()
-            if r < 0.5:
+            if r < 0.08:
+                if not w.op_head():
+                    return
+            elif r < 0.5:
                 if not w.op_request():
                     return
             elif r < 0.8:
